@@ -132,7 +132,7 @@ private:
   int skip_comment(int c);
   int skip_c_comment(int c);
   int skip_cpp_comment(int c);
-  int skip_digit_separator(int c);
+  int skip_digit_separator(int c, bool hex = false);
   int process_directive(int c);
 
   int get_preprocessor_command(int c, std::string &command);
